@@ -1036,6 +1036,13 @@ def hist_overlay(rng, cfg, g: G, meta, n_dicts=4):
     d_plain = P.dataset(params, fn_name=name, cache=P.new_cache("nocache"), **kw)
     d_opts = P.dataset(params, fn_name=name, options=popt, default_options=pdef, **kw)
     fam = dict_family(rng, cfg, n_dicts)
+    fam2 = []
+    for o in fam:
+        fam2.append(o)
+        tw = _bool_int_twin(o, rng)
+        if tw is not None:
+            fam2.append(tw)     # `==`-equal to the previous dictionary, yet a different one (True vs 1)
+    fam = fam2
     for o in fam:
         mixed = o
         for p, force in reversed(layers):
@@ -1064,6 +1071,19 @@ def hist_overlay(rng, cfg, g: G, meta, n_dicts=4):
         P.evaluate(d_plain, sort_json(m3))
         checks.append((len(P.ops) - 2, len(P.ops) - 1, "with_default_options method" if dflt else "with_options method"))
     meta["overlay"] = checks
+
+
+def _bool_int_twin(o, rng):
+    """a dictionary that compares equal to `o` under Python == but differs in a bool/int value"""
+    o2 = copy.deepcopy(o)
+    swap = {True: 1, 1: True, False: 0, 0: False}
+    cands = [k for k, v in o2.items() if isinstance(v, (bool, int)) and v in (0, 1)]
+    if not cands:
+        return None
+    k = rng.choice(cands)
+    v = o2[k]
+    o2[k] = (1 if v is True else 0 if v is False else True if v == 1 else False)
+    return sort_json(o2)
 
 
 def c08_programs(rng, tier) -> List[Item]:
@@ -1119,10 +1139,10 @@ def c09_programs(rng, tier) -> List[Item]:
         for _ in range(4):
             o: Dict[str, Any] = {}
             for key, vals in (("A", [1, "a", "{B}", "x{C}", None]), ("B", [2, "b", "{C}"]), ("C", [3, "c"]),
-                              ("P", ["{A}", "{B}-{A}", "p", "n{:p:}"]), ("Q", ["q{P}", "{S.X}"]),
+                              ("P", ["{A}", "{B}-{A}", "p"]), ("Q", ["q{P}", "{S.X}"]),
                               ("L", [["{A}", 1], ["l"], [{"path": "{B}/{C}"}], [["{A}"]]]),
                               ("S", [{"X": "{B}"}, {"X": 5}, {"Y": 1}]),
-                              ("W", [t, "{A}{B}", ["{C}"], {"K": "{A}"}, [{"p": "{B}"}, ["{C}"]], {"K": [{"q": "{A}"}]}])):
+                              ("W", [t if "{:" not in t else "{A}", "{A}{B}", ["{C}"], {"K": "{A}"}, [{"p": "{B}"}, ["{C}"]], {"K": [{"q": "{A}"}]}])):
                 if rng.random() < 0.75:
                     o[key] = rng.choice(vals)
             o = sort_json(o)
@@ -1179,6 +1199,35 @@ def ref_resolve_value(v, o, params, reads, depth=0):
     return v
 
 
+_SKIP = object()
+
+
+def _ref_param(nodes, nid, o, reads):
+    """value of a simple parameter expression (constant, plain Option with constant default, parameterless
+    Template) computed independently; _SKIP for anything else"""
+    n = nodes[nid]
+    if n["k"] == "value":
+        v = n.get("v")
+        return v if not isinstance(v, dict) else _SKIP
+    if n["k"] == "option" and n.get("dom") is None:
+        g = ref_get(n["key"], o)
+        if g[0] == "found":
+            reads.add(n["key"])
+            try:
+                return ref_resolve_value(g[1], o, {}, reads)
+            except (KeyError, ValueError, RecursionError):
+                return _SKIP
+        if g[0] == "absent" and n.get("dflt") is not None and nodes[n["dflt"]]["k"] == "value":
+            return nodes[n["dflt"]].get("v")
+        return _SKIP
+    if n["k"] == "template" and not n.get("params"):
+        try:
+            return ref_subst(n["t"], o, {}, reads)
+        except (KeyError, ValueError, RecursionError):
+            return _SKIP
+    return _SKIP
+
+
 def c09_oracle(prog, meta, impl, model):
     out = []
     nodes = {n["id"]: n for n in prog["nodes"]}
@@ -1187,14 +1236,42 @@ def c09_oracle(prog, meta, impl, model):
         o = prog["ops"][c["e"]]["o"]
         node = nodes[c["node"]]
         if not is_ok(e):
+            # a Template whose every referenced key is present (and resolves) must evaluate
+            if is_err(e) and node["k"] == "template" and missing_option(e) is not None:
+                try:
+                    rd: set = set()
+                    ps = {}
+                    ok = True
+                    for pname, pn in node.get("params", []):
+                        pv = _ref_param(nodes, pn, o, rd)
+                        if pv is _SKIP or (isinstance(pv, str) and ("{" in pv or "\\" in pv)):
+                            ok = False
+                            break
+                        ps[pname] = pv
+                    if ok:
+                        ref_subst(node["t"], o, ps, rd)
+                        out.append(("a Template fails with a missing-key error although every key it references is present",
+                                    c["e"], {"template": node["t"], "options": o, "error": e["r"]}))
+                except (KeyError, ValueError, RecursionError):
+                    pass
             continue
         # reads of a successful substitution must be covered by keys() and explain()
         reads: set = set()
         try:
             if node["k"] == "template":
-                if node.get("params"):
-                    continue   # parameter values are checked through the correspondence
-                txt = ref_subst(node["t"], o, {}, reads)
+                params = {}
+                simple = True
+                for pname, pn in node.get("params", []):
+                    pv = _ref_param(nodes, pn, o, reads)
+                    if pv is _SKIP:
+                        simple = False
+                        break
+                    params[pname] = pv
+                if not simple:
+                    continue   # other parameter expressions are checked through the correspondence
+                if any(isinstance(v, str) and ("{" in v or "\\" in v) for v in params.values()):
+                    continue   # F22: parameter text containing braces is re-read as a template
+                txt = ref_subst(node["t"], o, params, reads)
                 if isinstance(e["r"][1], str) and e["r"][1] != str(txt):
                     out.append(("a Template does not evaluate to its text with keys substituted transitively", c["e"],
                                 {"template": node["t"], "options": o, "got": e["r"][1], "expected": str(txt)}))
@@ -1218,6 +1295,8 @@ def c09_oracle(prog, meta, impl, model):
 
 
 C09 = CoreProp("C09", ("eval", "keys", "explain"), c09_programs, c09_oracle, nontrivial=lambda p, i: True,
+               classify=lambda prog, meta, what: None if what.startswith("a Template fails with a missing-key error") else
+               (param_in_option_value_program(prog) or brace_resubstitution_program(prog)),
                rule="templates over the atom alphabet {literal, {KEY}, {DOTTED.KEY}, {:param:}, escaped braces} up to 4 atoms, "
                     "parameters as constants/options/templates/datasets, options holding templated strings and containers of "
                     "templated strings to reference depth 3; independent substitution that records its reads")
@@ -1376,6 +1455,13 @@ def _selector_fns(prog) -> set:
     return names
 
 
+def param_in_option_value_program(prog) -> Optional[str]:
+    """trigger of F26: an option value refers to a template parameter"""
+    blob = json.dumps([op.get("o") for op in prog.get("ops", [])] + [n.get("p") for n in prog["nodes"] if n["k"] == "with"]
+                      + [d.get("options") for d in prog.get("dss", [])] + [d.get("default_options") for d in prog.get("dss", [])])
+    return "F26" if "{:" in blob else None
+
+
 def brace_resubstitution_program(prog) -> Optional[str]:
     """trigger of F22: a template parameter (or embedded key) may receive text containing braces"""
     has_param_template = any(n["k"] == "template" and n.get("params") for n in prog["nodes"])
@@ -1386,8 +1472,20 @@ def brace_resubstitution_program(prog) -> Optional[str]:
     return None
 
 
+def scalar_prefix_program(prog) -> Optional[str]:
+    """trigger of F10: a Map assigns scalars to a key while the mapped expression reads a key below it"""
+    keys = [n["key"] for n in prog["nodes"] if n["k"] == "option"]
+    for n in prog["nodes"]:
+        if n["k"] == "map":
+            for k, _ in n["its"]:
+                if any(x.startswith(k + ".") for x in keys):
+                    return "F10"
+    return None
+
+
 def c10_classify(prog, meta, what):
-    return effect_reads_program(prog) or brace_resubstitution_program(prog)
+    return (effect_reads_program(prog) or brace_resubstitution_program(prog) or param_in_option_value_program(prog)
+            or scalar_prefix_program(prog))
 
 
 C10 = CoreProp("C10", ("validate", "keys", "eval", "trace"), c10_programs, c10_oracle, classify=c10_classify,
@@ -1426,7 +1524,9 @@ def hist_explain(rng, cfg, g: G, meta, n_dicts=3):
 def c11_programs(rng, tier) -> List[Item]:
     items = corpus_items("C11")
     cfg = Cfg(raising=False, domains=False, all_options=False, templates=True, total_fns=True)
-    items += gen_items(rng, cfg, sizes(tier, 250, 3000), hist_explain)
+    items += gen_items(rng, cfg, sizes(tier, 200, 2500), hist_explain)
+    cfgm = Cfg(raising=False, domains=False, all_options=False, templates=True, total_fns=True, map_weight=4.0, self_map=0.7)
+    items += gen_items(rng, cfgm, sizes(tier, 60, 600), hist_explain)
     return items
 
 
@@ -1500,8 +1600,33 @@ def hist_failures(rng, cfg, g: G, meta, n_dicts=5):
     meta["raising"] = {n: s["raise"]["cls"] for n, s in P.fns.items() if "raise" in s}
 
 
+def c12_domain_items(rng, n) -> List[Item]:
+    """user code inside Option.evaluate (a domain predicate) raising arbitrary exception classes, KeyError
+    and its relatives included, on supplied values — with and without a default"""
+    items = []
+    for i in range(n):
+        P = Prog()
+        cls = rng.choice(["KeyError", "LookupError", "IndexError", "ValueError", "RuntimeError", "CustomError"])
+        bad = rng.sample([0, 1, "x", "y", None, False], 2)
+        P.const_fn("pred", True, **{"raise": {"cls": cls, "on": bad}})
+        dflt = P.value(rng.choice([7, "d", None])) if rng.random() < 0.5 else None
+        opt = P.option("A", dflt=dflt if not isinstance(P.node(dflt)["v"] if dflt else 0, str) else P.template("d"), dom=P.fnvalue("pred"))
+        root = rng.choice([opt, P.cached(opt), P.dataset([("a", opt)])])
+        seq = [{"A": v} for v in bad + [2, "ok"]] + [{}]
+        rng.shuffle(seq)
+        recs = []
+        for o in seq:
+            P.evaluate(root, sort_json(o))
+            P.evaluate(root, sort_json(o), cache_off=True)
+            recs.append((len(P.ops) - 2, len(P.ops) - 1))
+        items.append((P.to_json(), {"fail": recs, "root": root, "root_cid": None, "raising": {"pred": cls},
+                                    "pred_raises_on": bad, "pred_cls": cls}))
+    return items
+
+
 def c12_programs(rng, tier) -> List[Item]:
     items = corpus_items("C12")
+    items += c12_domain_items(rng, sizes(tier, 40, 300))
     cfg = Cfg(raising=True)
     items += gen_items(rng, cfg, sizes(tier, 350, 4000), hist_failures)
     return items
@@ -1532,6 +1657,12 @@ def c12_oracle(prog, meta, impl, model):
             if st:
                 out.append(("a failed evaluation stored a value in the cache of the object that failed", i,
                             {"options": prog["ops"][i]["o"], "stored_under": st[0][2], "error": a["r"]}))
+        if "pred_raises_on" in meta:
+            o = prog["ops"][i]["o"]
+            if "A" in o and any(o["A"] == b and type(o["A"]) == type(b) for b in meta["pred_raises_on"]):
+                if not is_err(a) or a["r"][1][-1][0] != meta["pred_cls"]:
+                    out.append(("an exception raised by user code (a domain predicate) did not surface with its cause", i,
+                                {"options": o, "raised": meta["pred_cls"], "got": a.get("r")}))
         # a failed evaluation stores nothing: every later evaluation equals its cache-off twin
         if not same_value_or_both_fail(impl[i], impl[j]):
             out.append(("after earlier evaluations (some failed) an evaluation differs from the same one with caching off", i,
